@@ -300,6 +300,10 @@ StringDictionaryHTFC::StringDictionaryHTFC(IteratorDictString *it,
       builder->insertEndingSubstr(&codeSubstr, &ptrSubstr, &textSubstr,
                                   &lenSubstr);
 
+    // The closing byte is part of the sequence: it must be the zero padding the
+    // decoding table was built for (it is not written when the last string is
+    // a bucket header)
+    textStrings[bytesStrings] = 0;
     bytesStrings++;
     xblStrings.push_back(bytesStrings);
     blStrings = new LogSequence(&xblStrings, bits(bytesStrings));
@@ -577,9 +581,14 @@ uchar *StringDictionaryHTFC::getHeader(size_t idbucket) {
 }
 
 ChunkScan StringDictionaryHTFC::decodeHeader(size_t idbucket) {
-  uchar *ptr = textStrings + blStrings->getField(idbucket);
+  size_t ptrH = blStrings->getField(idbucket);
+  uchar *ptr = textStrings + ptrH;
+  // Never read beyond the sequence: the last header is followed by padding
+  uint remain = maxcomplength;
+  if (bytesStrings - ptrH < remain)
+    remain = bytesStrings - ptrH;
   ChunkScan chunk = {
-      0, 0, ptr, maxcomplength, new uchar[4 * maxlength + table->getK()],
+      0, 0, ptr, remain, new uchar[4 * maxlength + table->getK()],
       0, 0, 1};
 
   // Variables used for adjusting purposes
